@@ -15,17 +15,31 @@ static void setup(PictureParentControlSet *p, SequenceControlSet *scs, uint64_t 
 }
 void harness(void) {
     SequenceControlSet *scs = (SequenceControlSet *)malloc(sizeof *scs);
-    PictureParentControlSet *a = (PictureParentControlSet *)malloc(sizeof *a), *b = (PictureParentControlSet *)malloc(sizeof *b);
-    V_ASSUME(scs && a && b);
+    PictureParentControlSet *a = (PictureParentControlSet *)malloc(sizeof *a);
+    V_ASSUME(scs && a);
     scs->seq_header.order_hint_info.order_hint_bits = 7; scs->seq_header.order_hint_info.enable_order_hint = 1;
     int d[7]; for (int i = 0; i < 7; i++) d[i] = (int)vin_range(-63, 63);
-    uint64_t n = 64 + (vin64() & 0xffffff), shift = vin64() & 0xffff;     /* any stream position, any common shift (wraps included) */
+    uint64_t n = 64 + (vin64() & 0x1ff);     /* every residue of the 2^7 order-hint period, several periods */
     int islice = vinbool(), refmode = (int)vin_range(0, 1);
-    setup(a, scs, n, d, islice, refmode); setup(b, scs, n + shift, d, islice, refmode);
-    svt_av1_setup_skip_mode_allowed(a); svt_av1_setup_skip_mode_allowed(b);
-    V_ASSERT(a->frm_hdr.skip_mode_params.skip_mode_allowed == b->frm_hdr.skip_mode_params.skip_mode_allowed, "skip-mode availability depends only on reference distances, not on the position in the order-hint period");
-    V_ASSERT(a->frm_hdr.skip_mode_params.ref_frame_idx_0 == b->frm_hdr.skip_mode_params.ref_frame_idx_0 && a->frm_hdr.skip_mode_params.ref_frame_idx_1 == b->frm_hdr.skip_mode_params.ref_frame_idx_1,
-             "skip-mode reference pair depends only on reference distances, not on the position in the order-hint period");
+    setup(a, scs, n, d, islice, refmode);
+    svt_av1_setup_skip_mode_allowed(a);
+    /* AV1 specification 7.9.? (skip mode frame selection) evaluated on the TRUE signed distances d[i] */
+    int fwd = -1, bwd = -1, fd = 0, bd = 0;
+    for (int i = 0; i < 7; i++) {
+        if (d[i] < 0) { if (fwd < 0 || d[i] > fd) { fwd = i; fd = d[i]; } }
+        else if (d[i] > 0) { if (bwd < 0 || d[i] < bd) { bwd = i; bd = d[i]; } }
+    }
+    int allowed = 0, i0 = -1, i1 = -1;
+    if (!islice && refmode != SINGLE_REFERENCE) {
+        if (fwd >= 0 && bwd >= 0) { allowed = 1; i0 = fwd < bwd ? fwd : bwd; i1 = fwd < bwd ? bwd : fwd; }
+        else if (fwd >= 0) {
+            int sec = -1, sd = 0;
+            for (int i = 0; i < 7; i++) if (d[i] < fd) { if (sec < 0 || d[i] > sd) { sec = i; sd = d[i]; } }
+            if (sec >= 0) { allowed = 1; i0 = fwd < sec ? fwd : sec; i1 = fwd < sec ? sec : fwd; }
+        }
+    }
+    V_ASSERT(a->frm_hdr.skip_mode_params.skip_mode_allowed == allowed, "skip mode allowed exactly when the true reference distances provide the required pair (at every position of the order-hint period)");
+    if (allowed) V_ASSERT(a->frm_hdr.skip_mode_params.ref_frame_idx_0 == i0 && a->frm_hdr.skip_mode_params.ref_frame_idx_1 == i1, "skip-mode reference pair = nearest references by true distance, independent of order-hint wrap");
     V_END();
 }
 #ifndef VERIF_CBMC
